@@ -204,6 +204,9 @@ def gen_inputs(run, src=None):
         add(raw, G.LANGS[i % 12], None, "quoteruns")
         if i % 4 == 0:
             add(raw.replace("'" * 5, "{{q5}}") + "\n\nnext\n", G.LANGS[i % 12], G.TEMPLATE_UNIVERSES[2], "quoteruns")
+    # unterminated / malformed tag openings followed by 4..60 attributes in 7 spellings (regex backtracking in the tag patterns)
+    for i, raw in enumerate(G.unterminated_tag_family(run.tier)):
+        add(raw, G.LANGS[i % 12], G.TEMPLATE_UNIVERSES[2] if i % 5 == 0 else None, "unterminated-tag")
     # wiki databases in which a page re-parses itself through a tag extension (cycle of 1..3 pages x every re-parsing tag / #tag / plain call)
     for i, (raw, db) in enumerate(G.reparse_family()):
         for lang in (G.LANGS[i % 12], "en" if i % 2 else "de"):      # "en" has a Page namespace alias path of its own; cover both lookups
